@@ -31,7 +31,7 @@ def rect_table(rng, w=None, max_rows=5):
 
 def gen_case(rng, i):
     family = ['plain', 'distinct', 'count', 'top', 'group', 'except', 'update', 'join', 'join-count', 'unnest', 'plain', 'division'][i % 12]
-    join = family in ('join', 'join-count') or (family in ('plain', 'distinct', 'top') and rng.random() < 0.25)
+    join = family in ('join', 'join-count') or (family in ('plain', 'distinct', 'top') and rng.random() < 0.25) or (family == 'update' and rng.random() < 0.4)
     A, wa = rect_table(rng)
     if family == 'division':
         for r in A:
@@ -52,7 +52,8 @@ def gen_case(rng, i):
         q['join'] = g.gen_join()
     if family == 'update':
         # one UPDATE in five also assigns to the column just past the table's width: that must fail, not widen the record under an unchanged header
-        q = g.gen_update(({'where'} if rng.random() < 0.5 else set()) | ({'beyond'} if rng.random() < 0.2 else set()))
+        # (with a JOIN when the case has a join table: the output header is still the input header alone)
+        q = g.gen_update(({'where'} if rng.random() < 0.5 else set()) | ({'beyond'} if rng.random() < 0.2 else set()) | ({'join'} if join else set()))
         return common.case_json(q, T, extra={'init': True})
     if family == 'except':
         q['except'] = [['field', 'a', j, g.spelling('a', j)] for j in sorted(rng.sample(range(wa), min(wa, rng.choice([1, 1, 2]))))]
